@@ -110,7 +110,7 @@ func (s *Server) outputHandler(w http.ResponseWriter, r *http.Request) {
 		r.Body,
 		r.PathValue(idParam),
 	)
-	s.abandonRequestBody(w)
+	s.abandonRequestBody(w, r)
 }
 
 // inOutHandler handles both input and output for a shell.
@@ -139,16 +139,26 @@ func (s *Server) inOutHandler(w http.ResponseWriter, r *http.Request) {
 		w,
 		r.Body,
 	)
-	s.abandonRequestBody(w)
+	s.abandonRequestBody(w, r)
 }
 
 // abandonRequestBody makes sure the HTTP library doesn't wait for the rest of
 // a request body we're no longer interested in, e.g. after rejecting a
 // connection.  The body may well never end, which would otherwise keep the
 // connection, and with it a graceful shutdown, hanging.
-func (s *Server) abandonRequestBody(w http.ResponseWriter) {
+func (s *Server) abandonRequestBody(w http.ResponseWriter, r *http.Request) {
 	/* Not every ResponseWriter can do this, notably not test ones. */
-	http.NewResponseController(w).SetReadDeadline(time.Now())
+	if err := http.NewResponseController(w).SetReadDeadline(
+		time.Now(),
+	); nil != err {
+		return
+	}
+	/* A read of the body may still be in progress, e.g. one started by a
+	proxy which has since been told to stop.  If we return before it's
+	finished, the HTTP library waits for it and then removes the deadline
+	we've just set.  Body reads don't overlap and with the deadline passed
+	none blocks, so a read of our own returns as soon as that one has. */
+	r.Body.Read(make([]byte, 1))
 }
 
 // requestLogger returns a log.Logger which has information about r.
